@@ -333,7 +333,11 @@ class ParserEngine(ParserCore, CanParse):
                 )
 
             expression = result = trim(expression)
-            with suppress(ValueError, SyntaxError):
+            # note: also what literal_eval raises for well-formed text that
+            #   is not a literal value: {[1]: 2} (TypeError), deep nesting
+            with suppress(
+                ValueError, SyntaxError, TypeError, RecursionError, MemoryError,
+            ):
                 result = stdlib_ast.literal_eval(expression.strip())
                 assert result is not Undefined
                 continue
